@@ -43,6 +43,10 @@ def run_property(prop, tier, repo):
         if ("serde" in F.features) != want_serde:
             raise factcache.InfraError("fact file features %r do not match config %s" % (F.features, cfg))
         R.set_config(cfg)
+        if F.field_renames:
+            R.info("private fields analysed under their pinned names (rules/canon.py): %s" % "; ".join(
+                "%s: %s" % (a.split("::")[-1], ", ".join("%s as %s" % kv for kv in sorted(m.items())))
+                for a, m in sorted(F.field_renames.items())))
         for rule in spec["rules"]:
             if cfg != "default" and getattr(rule, "serde_only", False):
                 continue
